@@ -5,6 +5,9 @@ Monitors (vlib.monitor, installed on the real classes):
             returned so far, module globals, a fresh Domain) unchanged across every API call;
   journal - every call is recorded with its canonical result and replayed later in the same
             history: same result (or raises iff it raised before);
+  fresh   - the same read-only calls executed in two different orders by two new interpreters
+            (vlib.order_worker) must give the same answers: catches process-wide memos / registries
+            whose polluted answer is stable inside one process and therefore invisible to the journal;
   threads - N threads run seeded call sequences on one shared domain with yield injection at
             statement boundaries (sys.monitoring); call by call they must produce what the same
             sequences produce sequentially.
@@ -20,11 +23,14 @@ RULE = ("random API histories of 30-200 calls (parse, ground, is_applicable, app
         "skip_validation}, re-apply the same operator object to earlier and later states, serialize, copy, print, domain/"
         "problem/trajectory export, parse an unrelated typed and an untyped domain, combine agent domains) over generated "
         "worlds biased to forall effects/conditions and numeric effects; thread runs of 2-8 threads sharing a domain with "
-        "injected yields; a case = one history / one thread run; distinct by world text + call sequence; non-trivial when "
+        "injected yields; sets of 60-150 read-only calls (print simplified / plain, export, vocabulary, subtype relation, ground, "
+        "applicability, apply, problem content) over three domains of one name - two sharing a vocabulary and the text of a numeric "
+        "comparison, one with other declarations under the same names - and problems with different object universes, executed in "
+        "two (thorough: three) orders by fresh interpreters; a case = one history / one thread run / one order differential; distinct by world text + call sequence; non-trivial when "
         "the history re-applied an operator object after another call and replayed >= 5 journal entries (histories), or "
         ">= 20 injected switches fell inside library code (thread runs)")
 DECISIVE = ["contract:purity", "replays_compared", "thread_calls_compared"]
-DECISIVE_EACH = ["contract:purity", "replays_compared", "thread_calls_compared"]
+DECISIVE_EACH = ["contract:purity", "replays_compared", "thread_calls_compared", "order_calls_compared"]
 ASSUMPTIONS = ["digests are read-only walks over public attributes (vlib.digest)",
                "thread sequences avoid sympy-backed calls (printing with simplification, nested numeric conditions): races inside sympy's caches are not the library's",
                "thread exploration is sampling under the GIL; no claim about free-threaded CPython"]
@@ -421,6 +427,138 @@ def run_threads(ctx, rng, n_threads, n_calls, p_yield):
         ctx.violation("threads:shared-domain-modified", {"first_difference": digest.first_difference(before, digest.d_domain(dom)), "domain": text})
 
 
+def paired_actions(rng, w):
+    """two actions that share the text of one numeric comparison: in the first it has a sibling equality through which the
+    simplifying printer eliminates a fluent, in the second it stands alone.  Printing one must not colour the other."""
+    params = gen.gen_params(rng, w, n=rng.choice([1, 2]))
+    t1 = gen.gen_fluent_term(rng, w, params, use_constants=0.0)
+    t2 = gen.gen_fluent_term(rng, w, params, use_constants=0.0)
+    if t1 is None or t2 is None or t1 == t2:
+        return None
+    ineq = [rng.choice(["<=", ">=", "<", ">"]), t1, str(rng.choice([1, 3, 5]))]
+    eq = ["=", ["+", t1, t2], str(rng.choice([4, 10]))]
+    with_eq = {"name": "pa", "params": params, "pre": ["and", eq, ineq], "eff": ["and"]}
+    alone = {"name": "pb", "params": params, "pre": ["and", ineq, [">=", t2, "0"]], "eff": ["and"]}
+    return with_eq, alone
+
+
+def run_order_differential(ctx, rng, thorough):
+    """fresh-process differential (vlib.order_worker): the same read-only calls, executed in two different orders by two
+    new interpreters, must give the same answer call by call"""
+    import copy
+    import json
+    import subprocess
+    wa = make_world(rng)
+    wb = copy.copy(wa)
+    wb.actions = make_world(rng).actions and []  # same vocabulary, other actions (filled below)
+    acts_b = []
+    for i in range(rng.randint(1, 3)):
+        params = gen.gen_params(rng, wa)
+        pre = gen.gen_formula(rng, wa, params, depth=2, width=2)
+        eff = gen.gen_effect(rng, wa, params, n=rng.randint(1, 3))
+        if gen.statically_consistent(eff):
+            acts_b.append({"name": f"b{i}", "params": params, "pre": pre, "eff": eff})
+    wb.actions = acts_b
+    pair = paired_actions(rng, wa)
+    wa = copy.copy(wa)
+    wa.actions = list(wa.actions)
+    if pair:
+        wa.actions.append(pair[0])
+        wb.actions.append(pair[1])
+        if rng.random() < 0.5:
+            wa.actions.append(dict(pair[1], name="pc"))
+        ctx.count("order_runs_with_paired_actions")
+    wc = make_world(rng)  # another vocabulary under the same domain name and (mostly) the same type / predicate names
+    worlds = {"A": wa, "B": wb, "C": wc}
+    job = {"domains": {}, "problems": {}, "calls": {}}
+    n = [0]
+
+    def add(call):
+        n[0] += 1
+        job["calls"][f"c{n[0]}"] = call
+
+    for dk, w in worlds.items():
+        if not w.actions:
+            continue
+        text = w.domain_text()
+        job["domains"][dk] = text
+        try:
+            dm = model.RefDomain.from_text(text)
+        except model.ModelError:
+            continue
+        add(["vocabulary", dk])
+        add(["subtypes", dk])
+        add(["export-domain", dk])
+        for a in w.actions:
+            add(["print", dk, a["name"], True])
+            add(["print", dk, a["name"], False])
+            add(["str-action", dk, a["name"]])
+        for j in range(2):
+            w2 = w
+            if j and len(w.objects) > 2:
+                w2 = copy.copy(w)
+                drop = set(rng.sample(sorted(w.objects), 1))
+                w2.objects = {o: t for o, t in w.objects.items() if o not in drop}
+            pk = f"{dk}{j}"
+            st = gen.random_state(rng, w2)
+            job["problems"][pk] = [dk, sx.plain(w2.problem_ast(st, rng=rng))]
+            add(["problem-content", pk])
+            add(["export-problem", pk])
+            wm = model.World(dm, w2.objects)
+            for a in rng.sample(w.actions, min(2, len(w.actions))):
+                try:
+                    calls = model.type_correct_calls(wm, dm.actions[a["name"]])
+                except model.ModelError:
+                    continue
+                if not calls:
+                    continue
+                call = list(rng.choice(calls))
+                add(["ground", pk, a["name"], call])
+                add(["applicable", pk, a["name"], call])
+                add(["apply", pk, a["name"], call])
+    ids = sorted(job["calls"])
+    rng.shuffle(ids)
+    orders = [list(ids), list(reversed(ids))]
+    if thorough:
+        o3 = list(ids)
+        rng.shuffle(o3)
+        orders.append(o3)
+    results = []
+    for k, order in enumerate(orders):
+        jp = env.write_tmp(json.dumps(dict(job, order=order)), suffix=".json")
+        outp = jp + ".out"
+        e = dict(os.environ, PYTHONPATH=env.HERE)
+        e.setdefault("PYTHONHASHSEED", "0")
+        try:
+            r = subprocess.run([sys.executable, "-m", "vlib.order_worker", jp, outp], cwd=env.HERE, env=e, timeout=600,
+                               stdout=subprocess.PIPE, stderr=subprocess.STDOUT, text=True)
+            with open(outp) as f:
+                results.append(json.load(f))
+        except Exception as ex:
+            ctx.count("order_worker_failed")
+            ctx.notes["order_worker_error"] = (str(ex) + " " + (r.stdout[-300:] if "r" in dir() else ""))[:500]
+            return
+    base = results[0]
+    for cid in ids:
+        kind = job["calls"][cid][0]
+        ctx.count("order_answers:" + ("raised" if str(base.get(cid)).startswith("raised:") else "returned") + ":" + kind)
+        if str(base.get(cid)).startswith("raised:"):
+            ctx.notes.setdefault("order_call_raising_example", {"call": job["calls"][cid], "answer": base.get(cid)})
+    for k, res in enumerate(results[1:], 1):
+        for cid in ids:
+            ctx.count("order_calls_compared")
+            if res.get(cid) != base.get(cid):
+                call = job["calls"][cid]
+                before = orders[k][:orders[k].index(cid)]
+                ctx.violation(f"fresh-process:answer-depends-on-the-calls-made-before:{call[0]}",
+                              {"call": call, "answer_in_order_1": str(base.get(cid))[:600], f"answer_in_order_{k + 1}": str(res.get(cid))[:600],
+                               "calls_before_it_in_order_1": [job["calls"][c] for c in orders[0][:orders[0].index(cid)]][-12:],
+                               f"calls_before_it_in_order_{k + 1}": [job["calls"][c] for c in before][-12:],
+                               "domains": job["domains"], "problems": job["problems"]})
+                return
+    ctx.nontrivial(["order", job["domains"], orders[0]])
+
+
 def run(ctx):
     lib.assert_repo()
     rng = ctx.rng("c07")
@@ -447,6 +585,11 @@ def run(ctx):
             continue
         ctx.count("cases")
         run_threads(ctx, rng, rng.randint(2, 8), rng.randint(10, 30), rng.choice([0.05, 0.1, 0.3]))
+    for i in range(6 if thorough else 1):
+        if not ctx.next_case():
+            continue
+        ctx.count("cases")
+        run_order_differential(ctx, rng, thorough)
     if thorough and ctx.shard == 0:
         run_repo_tests_under_monitor(ctx)
 
